@@ -184,8 +184,9 @@ impl PageCache {
             remaining_frames.push(frame);
         }
 
+        // The cache stays usable with its configured capacity: this is also called by every
+        // checkpoint (Pager::flush), after which the same handle keeps working.
         self.cursor = 0;
-        self.capacity = 0;
         remaining_frames
     }
 }
